@@ -362,6 +362,11 @@ class SymExec:
         # Vec / slice / array element access by a plain usize index: a projection of the argument
         if name.endswith("::index_mut") or name.endswith("::index"):
             ra = [self.fb.ty(a["ty"]).s for a in t.get("resolved_args", []) if "ty" in a]
+            if len(args) == 2 and args[0][0] == "ref" and "std::ops::RangeFull" in ra:
+                # x[..]: the whole thing
+                dest = self.place_loc(st, t["dest"])
+                self.write(st, dest, args[0])
+                return {"k": "call", "name": name, "args": args, "locargs": args, "term": args[0], "inlined": True, "ret": args[0], "site": site, "dest": dest}
             if len(args) == 2 and args[0][0] == "ref" and "usize" in ra and not any("Range" in x for x in ra) and (name.startswith("<std::vec::Vec<") or name.startswith("core::slice::index::<impl") or name.startswith("std::array::<impl")):
                 dest = self.place_loc(st, t["dest"])
                 r = ("ref", ("index", args[0][1], args[1]), args[0][2])
